@@ -15,6 +15,7 @@ Driver for C05.  Protocol (one case):
   vtables                            → method tables of all function blocks and classes (method_table_for)
   strtab <hex>…                      → number of entries after interning the decoded string table
   xcompile <digest>…                 digests of the container bytes observed by the child processes
+  xentry <entry point> <digest>…     the same for another public compile entry point
   xcycle <i> <digest>…               digests of the dump of cycle i observed by the child processes
   xrepub <i> <digest>…               digests of the I/O images after publishing the state of cycle i again
   xconst <digest>…                   digests of the never-assigned image ranges after the later cycles
@@ -130,6 +131,10 @@ def step (st : St) (line : String) : St × Option String :=
     | some d => (st, some ("m " ++ d))
     | none => (st, some "m DIVERGE")
   | "xcycle" :: _ :: ds =>
+    match agree ds with
+    | some d => (st, some ("m " ++ d))
+    | none => (st, some "m DIVERGE")
+  | "xentry" :: _ :: ds =>
     match agree ds with
     | some d => (st, some ("m " ++ d))
     | none => (st, some "m DIVERGE")
